@@ -337,19 +337,58 @@ Proof.
     + apply union_NoDup; [|exact D]. constructor; [intros []|constructor].
 Qed.
 
+Lemma some_cover_sound fuel : forall rem Y z,
+  some_cover pick fuel rem Y = Some z -> incl z Y /\ cov z rem.
+Proof.
+  induction fuel as [|n IH]; intros rem Y z H.
+  - destruct rem; cbn in H; [|discriminate]. inversion H; subst.
+    split; [apply incl_nil_l | intros x []].
+  - destruct rem as [|r0 rem'].
+    + cbn in H. inversion H; subst. split; [apply incl_nil_l | intros x []].
+    + remember (r0 :: rem') as rem eqn:Er.
+      assert (H' : match pick rem with
+        | None => None
+        | Some x0 =>
+          match pick (those_over Y x0) with
+          | None => None
+          | Some y0 =>
+            match some_cover pick n (filter (fun p => negb (box_leb p y0)) rem) Y with
+            | Some z => Some (y0 :: z)
+            | None => None
+            end
+          end
+        end = Some z).
+      { rewrite Er in *. exact H. }
+      clear H. destruct (pick rem) as [x0|]; [|discriminate].
+      destruct (pick (those_over Y x0)) as [y0|] eqn:Ey; [|discriminate].
+      destruct (some_cover pick n _ Y) as [z'|] eqn:Ez; [|discriminate].
+      inversion H'; subst z. apply IH in Ez. destruct Ez as [A B].
+      apply pick_ok in Ey. apply those_over_In in Ey. split.
+      * intros b [<-|Hb]; [apply Ey | apply A, Hb].
+      * intros x Hx. destruct (box_leb x y0) eqn:E.
+        -- exists y0. split; [left; reflexivity | apply box_leb_true, E].
+        -- destruct (B x) as [c [Hc1 Hc2]].
+           { apply filter_In. split; [exact Hx | rewrite E; reflexivity]. }
+           exists c. split; [right; exact Hc1 | exact Hc2].
+Qed.
+
 Theorem minimize_xy_sound X Y K :
   minimize_xy rs pick X Y = Some K -> below_top X ->
   NoDup K /\ incl K Y /\ cov K X.
 Proof.
   unfold minimize_xy. intros H HX.
-  destruct (some_cover pick _ X Y) as [c0|]; [|discriminate].
-  destruct (traverse rs pick _ X Y 0 (length c0)) as [[[[C|] s] u]|] eqn:ET; try discriminate.
-  apply traverse_sound in ET; [|exact HX].
-  apply unfloors_sound in H. destruct H as [A [B D]].
-  split; [exact D|]. split; [exact A|].
-  intros x Hx. destruct (ET x Hx) as [c [Hc1 Hc2]].
-  destruct (B c Hc1) as [k [Hk1 Hk2]]. exists k. split; [exact Hk1|].
-  apply box_le_trans with c; assumption.
+  destruct (some_cover pick _ X Y) as [c0|] eqn:Ec; [|discriminate].
+  assert (G : forall C, cov C X -> unfloors pick C Y = Some K ->
+              NoDup K /\ incl K Y /\ cov K X).
+  { intros C HC HU. apply unfloors_sound in HU. destruct HU as [A [B D]].
+    split; [exact D|]. split; [exact A|].
+    intros x Hx. destruct (HC x Hx) as [c [Hc1 Hc2]].
+    destruct (B c Hc1) as [k [Hk1 Hk2]]. exists k. split; [exact Hk1|].
+    apply box_le_trans with c; assumption. }
+  destruct (traverse rs pick _ X Y 0 (length c0)) as [[[[C|] s] u]|] eqn:ET;
+    try discriminate.
+  - apply traverse_sound in ET; [|exact HX]. apply (G C ET H).
+  - apply some_cover_sound in Ec. apply (G c0 (proj2 Ec) H).
 Qed.
 End AlgProofs.
 
@@ -445,4 +484,41 @@ Proof.
   destruct (min_cover_ref rs f care) as [K|].
   - exists K. split; [reflexivity | exact H].
   - exfalso. apply (H (primes rs f care)), primes_cover.
+Qed.
+
+(* ------------------------------------------------------------ consequences for C10 *)
+Lemma all_min_same_size rs f care R :
+  all_min_prime_covers rs f care R ->
+  forall K K', In K R -> In K' R -> length K = length K'.
+Proof.
+  intros [HA _] K K' HK HK'.
+  destruct (HA K HK) as [_ [P M]]. destruct (HA K' HK') as [_ [P' M']].
+  specialize (M K' P'). specialize (M' K P). lia.
+Qed.
+
+Lemma all_min_nonempty rs f care R :
+  all_min_prime_covers rs f care R -> R <> [].
+Proof.
+  intros [_ HB] E. destruct (min_cover_ref_total rs f care) as [K [_ HK]].
+  destruct (HB K HK) as [K' [Hin _]]. subst R. destruct Hin.
+Qed.
+
+Lemma all_min_contains rs f care R K :
+  all_min_prime_covers rs f care R -> min_prime_cover rs f care K ->
+  anyb (same_setb K) R = true.
+Proof.
+  intros [_ HB] HK. destruct (HB K HK) as [K' [Hin Hs]].
+  rewrite anyb_existsb. apply existsb_exists. exists K'.
+  split; [exact Hin | apply same_setb_true, Hs].
+Qed.
+
+(* the set of all minimum covers is unique up to order *)
+Lemma all_min_unique rs f care R R' :
+  all_min_prime_covers rs f care R -> all_min_prime_covers rs f care R' ->
+  (forall K, In K R -> exists K', In K' R' /\ same_set K K') /\
+  (forall K', In K' R' -> exists K, In K R /\ same_set K' K).
+Proof.
+  intros [A B] [A' B']. split.
+  - intros K HK. apply B', A, HK.
+  - intros K' HK'. apply B, A', HK'.
 Qed.
